@@ -45,6 +45,38 @@ def expected_encoding(r, present, order):
     return out
 
 
+TWIN_OPS = [({'op': 'server_body', 'N': 8, 'content_type': 'application/json', 'chunks': ['31', '', '32'], 'order': ['json', 'smile']}, {'ok': '12'}),
+            ({'op': 'server_body', 'N': 2, 'content_type': 'application/json', 'chunks': ['31', '20', '20'], 'order': ['json', 'smile']}, 'err'),
+            ({'op': 'server_body', 'N': 8, 'content_type': 'text/plain', 'chunks': ['31'], 'order': ['json', 'smile']}, 'err'),
+            ({'op': 'server_body', 'N': 8, 'content_type': None, 'chunks': ['31'], 'order': ['json', 'smile']}, 'err'),
+            ({'op': 'server_body', 'N': 8, 'content_type': 'application/json; charset=utf-8', 'chunks': ['31'], 'order': ['smile', 'json']}, {'ok': '1'}),
+            ({'op': 'server_body', 'N': 8, 'content_type': 'application/json', 'chunks': ['31', '20', '78'], 'order': ['json', 'smile']}, 'err')]
+
+
+OPT_BIN_OPS = [({'op': 'server_body_opt_bin', 'content_type': None, 'chunk': ''}, ('none', 'err')), ({'op': 'server_body_opt_bin', 'content_type': 'application/json', 'chunk': '37'}, ('some:7', 'err')),
+               ({'op': 'server_body_opt_bin', 'content_type': 'application/octet-stream', 'chunk': '37'}, ('err', 'ok')), ({'op': 'server_body_opt_bin', 'content_type': 'text/plain', 'chunk': '37'}, ('err', 'err')),
+               ({'op': 'server_body_opt_bin', 'content_type': 'application/json', 'chunk': '3778'}, ('err', 'err'))]
+
+
+def battery_opt_bin():
+    out = []
+    for (o, w), r in zip(OPT_BIN_OPS, replay([o for o, _ in OPT_BIN_OPS])):
+        if (r.get('optional'), r.get('binary')) != w:
+            out.append(f'{o}: native (optional, binary) = ({r.get("optional")}, {r.get("binary")}), expected {w}')
+    return out
+
+
+def battery():
+    out = []
+    for (o, w), r_ in zip(TWIN_OPS, replay([o for o, _ in TWIN_OPS])):
+        for fl in ('blocking', 'async'):
+            got = r_.get(fl, {})
+            good = (got.get('ok') == w['ok']) if isinstance(w, dict) else ('err' in got)
+            if not good:
+                out.append(f'{fl} {o}: {got} (expected {w})')
+    return out
+
+
 def run(rep, tier):
     NCH, L = (3, 2) if tier == 'quick' else (4, 2)
     rep.bounds['history'] = f'<= {NCH} stream items (Ok chunk of <= {L} symbolic bytes incl. empty, or Err); size limit N symbolic over 64 bits; Content-Type absent / not text / unparsable / parsed; both registration orders of JSON and Smile'
@@ -115,24 +147,15 @@ def run(rep, tier):
                         e = errp.fields[0]
                         good = e.fields[0] == 'stream' or (e.fields[0] == 'service' and e.fields[3] is not None and e.fields[3].name.endswith('InvalidArgument'))
                         if not good:
-                            rep.violation('C06:error-kind', f'{flavour} StdRequestDeserializer refuses with {e.fields[0]} / {e.fields[3]!r} instead of INVALID_ARGUMENT or the stream error', {'error': repr(e)[:300]})
+                            rep.structural('C06:error-kind', f'{flavour} StdRequestDeserializer refuses with {e.fields[0]} / {e.fields[3]!r} instead of INVALID_ARGUMENT or the stream error', {'error': repr(e)[:300]}, battery)
                 if not seen_ok:
                     rep.inconc(f'vacuity: StdRequestDeserializer {flavour} never accepts')
                 finish_engine(rep, it)
     run_optional_and_binary(rep, prog, mk, NCH, L, doc)
     # reachability twins replayed natively
-    ops = [{'op': 'server_body', 'N': 8, 'content_type': 'application/json', 'chunks': ['31', '', '32'], 'order': ['json', 'smile']},
-           {'op': 'server_body', 'N': 2, 'content_type': 'application/json', 'chunks': ['31', '20', '20'], 'order': ['json', 'smile']},
-           {'op': 'server_body', 'N': 8, 'content_type': 'text/plain', 'chunks': ['31'], 'order': ['json', 'smile']},
-           {'op': 'server_body', 'N': 8, 'content_type': None, 'chunks': ['31'], 'order': ['json', 'smile']}]
-    res = replay(ops)
-    rep.replayed += len(ops)
-    for o, r_, w in zip(ops, res, [{'ok': '12'}, 'err', 'err', 'err']):
-        for fl in ('blocking', 'async'):
-            got = r_.get(fl, {})
-            good = (got.get('ok') == w['ok']) if isinstance(w, dict) else ('err' in got)
-            if not good:
-                rep.violation(f'C06:native:{fl}', f'server body {o}: native {fl} result {got}, expected {w}', {'op': o, 'native': r_})
+    for fail in battery() + battery_opt_bin():
+        rep.violation('C06:native-twin', f'native twin: {fail}', {'native': fail})
+    rep.replayed += len(TWIN_OPS) + len(OPT_BIN_OPS)
     rep.assumptions += ['serde_json / serde_smile: T::deserialize consumes one document (valid or not); Deserializer::end succeeds iff only whitespace follows; erased_serde::erase is transparent',
                         'the futures of the body stream are always Ready; mediatype parsing is outside (Content-Type arrives parsed)']
     rep.outside += ['what a well-formed document is (serde_json / serde_smile)', f'more than {NCH} stream items']
@@ -183,7 +206,7 @@ def run_optional_and_binary(rep, prog, mk, NCH, L, doc):
         conds.append(z3.And(z3.Not(is_ok), z3.Not(present)))
         m = dec.decide(f'optional:path{np_}:absent<=>no-Content-Type', s2, z3.Or(*conds))
         if m is not None:
-            rep.violation('C06:optional', f'OptionalRequestDeserializer: Content-Type present={z3.is_true(m.eval(present, True))} gives ok={z3.is_true(m.eval(is_ok, True))}', {'model': str(m)[:400]})
+            rep.structural('C06:optional', f'OptionalRequestDeserializer: Content-Type present={z3.is_true(m.eval(present, True))} gives ok={z3.is_true(m.eval(is_ok, True))}', {'model': str(m)[:400]}, battery_opt_bin)
     finish_engine(rep, it)
     it = mk()
     dec = Decider(rep, it)
@@ -201,7 +224,7 @@ def run_optional_and_binary(rep, prog, mk, NCH, L, doc):
         is_ok = it.variant_of(rv, 'Ok')
         m = dec.decide('binary:Ok<=>application/octet-stream', s2, is_ok != (ct == 3))
         if m is not None:
-            rep.violation('C06:binary', f'BinaryRequestDeserializer: Content-Type {c18.CT_CHOICES[m.eval(ct, True).as_long()]!r} accepted={z3.is_true(m.eval(is_ok, True))}', {})
+            rep.structural('C06:binary', f'BinaryRequestDeserializer: Content-Type {c18.CT_CHOICES[m.eval(ct, True).as_long()]!r} accepted={z3.is_true(m.eval(is_ok, True))}', {}, battery_opt_bin)
     finish_engine(rep, it)
 
 
